@@ -155,6 +155,22 @@ def D6(m, R):
     subs = [n for n in f.walk() if isinstance(n, ast.Subscript) and is_name(n.value, f.self_name) and isinstance(n.slice, ast.Slice)]
     ok = len(subs) == 1 and norm(subs[0].slice.lower) == 'start' and norm(subs[0].slice.upper) == 'end' and subs[0].slice.step is None
     R.check(ok, f, subs[0] if subs else f.node, 'clip takes self[start:end]', 'clip slices %s' % (short(subs[0]) if subs else 'nothing'), construct='clip slice')
+    if ok:
+        from ..cfg import CFG
+        cfg = CFG(f.node, f.body)
+        stn = subs[0]
+        while not isinstance(stn, ast.stmt):
+            stn = stn._parent
+        snode = cfg.node_of(stn)
+        rets = [nd for nd in cfg.nodes if nd.kind == 'return']
+        bypass = [nd for nd in rets if snode is None or not cfg.dominates(snode, nd)]
+        R.check(not bypass, f, bypass[0].stmt if bypass else stn, 'every return of clip comes after the slice was taken',
+                'L%d returns without taking self[start:end]: some (start, end) combination is answered with something else than the slice' % (bypass[0].line if bypass else 0),
+                construct='clip always slices')
+        obj = norm(stn.targets[0]) if isinstance(stn, ast.Assign) else None
+        bad = [nd for nd in rets if norm(nd.stmt.value) not in (obj, f.self_name)]
+        R.check(not bad, f, bad[0].stmt if bad else stn, 'clip returns the slice (or the receiver after taking over its fields)',
+                'clip returns %s' % (norm(bad[0].stmt.value) if bad else ''), construct='clip returns slice')
     # __str__ -> __format__(None) -> to_str(spec)
     f = fn('__str__')
     expr, ret = single_return(f)
